@@ -6,6 +6,12 @@ V = os.path.dirname(os.path.dirname(os.path.abspath(__file__)))
 ids = [json.loads(l)["id"] for l in open(f"{V}/properties.jsonl")]
 
 CHECKS = {
+ "C01": dict(
+  cat="exploration", ref="DESIGN.md §4 C01",
+  technique="grammar-based generation of accepted configurations (whole action grammar, non-latching) x generated physically consistent histories incl. capacity bursts, run on the real state machine through a loop emulation; oracle = end-state invariant (nothing down at the OS, no further output, idle and can-block) after an adaptive settle period with a hard bound derived from the configuration; proptest + ddmin shrinking",
+  text="After the last release the harness keeps ticking (calling the idle-blocking decision every ms so that on-idle actions run) until kanata has been completely quiet for 300 consecutive ticks; if that does not happen within 6 x (sum of configured timeouts + macro lengths) + 6000 ticks the case is a violation naming what is stuck. Capacity configs press 33-40 keys within a tick, hold > 64 states, > 8 tap-holds, > 16 one-shots, > 4 macros.",
+  note="Latching constructs are excluded by construction (and rejected by the judge so shrinking cannot drift there). Seven capacity / custom-event defects are recorded as known findings (F6 F6b F28 F29 F30 F31 F32) and recognised by observable classifiers (queue full at an input call, state vector full, two custom states changing in one tick, action queue never draining, ...); two defects (F22, F7) were repaired with fix: commits."),
+
  "C02": dict(
   cat="exploration", ref="DESIGN.md §4 C02",
   technique="grammar-based generation of accepted configurations (tape-driven generator over the whole action grammar, boundary numerics, actions in every context) x unrestricted generated event histories, run on the real state machine in isolated workers; oracle = no panic / error / abort / hang; proptest + ddmin shrinking",
